@@ -294,24 +294,26 @@ func finish(c *Ctx, tier string, seed int64, start time.Time, extra map[string]i
 	cov := map[string]interface{}{
 		"explanation": "Static analysis of /repo's type-checked SSA form (nothing is executed). Decided: " + c.Prop.Decided +
 			" NOT decided by this check: " + c.Prop.NotDecided,
-		"obligations":            nObl,
-		"discharged":             nDis,
-		"evaluations":            nObl,
-		"distinct_nontrivial":    nNontriv,
-		"rule":                   "one obligation per (rule, function, semantic construct) anchor found in the current tree; non-trivial = its verdict needed a dataflow/dominance/provenance argument rather than 'no such site'; distinct by obligation key",
-		"samples":                samples,
-		"notes":                  notes,
-		"rules":                  rulesDoc,
-		"known_findings":         res.Known,
-		"stale_known_findings":   stale,
-		"fixed_findings":         filterFixed(fixed, c.Prop.ID),
-		"functions_analysed":     len(c.P.SrcFunc),
-		"request_path_functions": len(c.P.requestPathFuncs()),
-		"request_roots":          len(roles.RequestRoots),
-		"packages":               2,
-		"files":                  c.P.NFiles,
-		"counters":               c.Counters,
-		"checker_cmd":            "bin/restcheck -property " + c.Prop.ID + " -tier " + tier,
+		"canonical_names":                c.P.Canonical,
+		"rules_decided_on_a_normal_form": c.Counters["rules_decided_on_a_normal_form"],
+		"obligations":                    nObl,
+		"discharged":                     nDis,
+		"evaluations":                    nObl,
+		"distinct_nontrivial":            nNontriv,
+		"rule":                           "one obligation per (rule, function, semantic construct) anchor found in the current tree; non-trivial = its verdict needed a dataflow/dominance/provenance argument rather than 'no such site'; distinct by obligation key",
+		"samples":                        samples,
+		"notes":                          notes,
+		"rules":                          rulesDoc,
+		"known_findings":                 res.Known,
+		"stale_known_findings":           stale,
+		"fixed_findings":                 filterFixed(fixed, c.Prop.ID),
+		"functions_analysed":             len(c.P.SrcFunc),
+		"request_path_functions":         len(c.P.requestPathFuncs()),
+		"request_roots":                  len(roles.RequestRoots),
+		"packages":                       2,
+		"files":                          c.P.NFiles,
+		"counters":                       c.Counters,
+		"checker_cmd":                    "bin/restcheck -property " + c.Prop.ID + " -tier " + tier,
 		"trusted_base": []string{"go/packages, go/types, go/ssa (golang.org/x/tools v0.29.0)", "Go semantics of defer/recover/select/receivers/append",
 			"modelled library contracts listed in DESIGN.md §8"},
 		"exhaustive": true,
